@@ -292,7 +292,14 @@ def stepOf (st : RunSt) (j : Json) : RunSt :=
   | "du" => RunSt.push (st.act (.du (str j "name")))
   | "dr" =>
     let wo := strs j "wo"
-    let lo := (wo.getD 0 "ok") == "ok"
+    -- the shape of the admission request (`rq`: collection delete with an empty request.name,
+    -- request namespace, requestKind version, subresource, grace period, preconditions) does not
+    -- enter the model: the verdict depends on the object. Two things do: an operation other than
+    -- DELETE is refused unjudged (as a failed List: errored), a dry-run delete deletes nothing.
+    let rq := obj j "rq"
+    let opBad := str rq "op" != "" && str rq "op" != "DELETE"
+    let dry := bool rq "dry"
+    let lo := (wo.getD 0 "ok") == "ok" && !opBad
     let po := (wo.getD 1 "ok") == "ok"
     let (g, k, n) := (groupOf (str j "av"), str j "kind", str j "name")
     let v := nat j "v"
@@ -301,8 +308,13 @@ def stepOf (st : RunSt) (j : Json) : RunSt :=
     let lag := listed && st.lagging v
     let stale := if lag then some ((st.viewAt v).filter (·.indexedBy (indexKey g k n))).length else none
     let st := if listed then { st with cpos := st.viewIdx v } else st
-    if lag then RunSt.push (st.actW (.dr g k n (str j "policy") lo po stale))
-    else RunSt.push (st.act (.dr g k n (str j "policy") lo po none))
+    let a : Action := .dr g k n (str j "policy") lo po stale
+    let allowed := match (st.sys.exec a).2 with | .del (.done _ .allowed) => true | _ => false
+    if dry && allowed then
+      -- admitted dry run: the answer is reported, nothing changes
+      RunSt.push ({ st with hist := st.hist.push st.sys.store.usages }, (st.sys.exec a).2.str)
+    else if lag then RunSt.push (st.actW a)
+    else RunSt.push (st.act a)
   | "gc" =>
     if str j "kind" == "Usage" && (str j "av" == "" || groupOf (str j "av") == "apiextensions.crossplane.io") then
       RunSt.push (st.act (.gcU (str j "name")))
